@@ -49,7 +49,10 @@ def extra(res, cases, hv, driver):
                               {"case": {"src": src, "w": w, "env": envt, "canonical": "done 1 " + r.split(" ", 2)[2]}, "backend": backend, "level": level, "profile": "release", "implementation": o})
     from .. import forms
     fst = forms.run_forms(res, ["jit"], sample=(6 if res.tier == "quick" else None))
-    return {"huge_constant_runs": len(lines), "huge_constant_disagreements": bad, "form_level": fst}
+    xst = forms.run_x86_forms(res, sample=(4 if res.tier == "quick" else None))
+    res.assumptions += ["arithmetic instruction selection: theorem C03_form_sound (Props/C03.v) proves that machine code accepted by X86.form_ok computes the bytecode instruction's result for every operand value and preserves all other cells, slots and live registers; the check runs it on the code the current build emits for every normalised Copy/Add/Sub/Mul shape (x86_forms in extra); trusted: the concrete x86 semantics of X86.v (mov/movzx/add/sub/inc/dec/imul/lea with partial-register rules), objdump, and the translator tools/x86tr.py; control flow, bounds checks, runtime calls and register save/restore around them are validated by execution only"]
+    return {"huge_constant_runs": len(lines), "huge_constant_disagreements": bad, "form_level": fst, "x86_forms": xst,
+            "theorems": ["C03_form_sound"]}
 
 
 def run(res):
